@@ -45,6 +45,10 @@ ALSO = {
     'c14': ['compact_tables::CompactTableBuilder::set_successors', 'compact_tables::CompactTableBuilder::store_successors'],
     'c17': ['smt_strings::parse_smt_literal'],
 }
+# C16.H matcher leaves: the returns are the mismatch / the found position, each checked against rigid_match_at
+EXPECTED['regular_expressions::rigid_match_at'] = {'return': 1}
+EXPECTED['regular_expressions::next_rigid_match'] = {'return': 1}
+EXPECTED['regular_expressions::prev_rigid_match'] = {'return': 1}
 EXPECTED['regular_expressions::contains'] = {'return': 2}   # linear search: found / passed the place where it would be (sorted by id)
 
 # functions whose loops are verified through inferred invariants and a full postcondition on every leaf (any extra exit
